@@ -529,8 +529,7 @@ def main(chk: Check) -> None:
         chk.broken("translator", "C10/Gen.v", str(e))
     chk.forbidden_scan()
     if chk.coq_make(["C10/Proofs.vo", "C10/Extract.vo"]):
-        if chk.audit_props("C10/Props.v") and chk.tier == "thorough":
-            chk.coqchk(["Wz.C10.Props"])
+        chk.audit_props("C10/Props.v")
     else:
         chk.cov["obligations"] += 1
     chk.trusted += [
